@@ -302,6 +302,27 @@ fn run(args: &[String]) -> i32 {
     let mut medium = medium_deep_inputs();
     // nested function calls are parsed in exponential time; 18 levels exhaust the parser's fuel (about 2 minutes)
     let mut fuel: Vec<Vec<u8>> = if arg_flag(args, "--fuel") { vec![format!("rule a {{condition: {}1{} == 1 }} rule b {{condition: true}}", "f(".repeat(18), ")".repeat(18)).into_bytes()] } else { vec![] };
+    // one source of megabytes on every run: the parser's fuel is per file, a long list of rules must not exhaust it
+    {
+        let nrules = arg_u64(args, "--big-rules", 100000) as usize;
+        let mut big = String::with_capacity(nrules * 40);
+        for i in 0..nrules { big.push_str(&format!("rule big_{} {{ condition: true }}\n", i)); if i % 1000 == 999 { big.push_str("// a thousand more\n"); } }
+        let src = big.into_bytes();
+        let t0 = std::time::Instant::now();
+        let raw = catch(AssertUnwindSafe(|| Parser::new(&src).collect::<Vec<Event>>())).unwrap_or_default();
+        let mut covered = 0usize; let mut cst_rules = 0usize;
+        for e in &raw { match e { Event::Token { span, .. } => { if span.start() == covered { covered = span.end(); } } Event::Begin { kind: SyntaxKind::RULE_DECL, .. } => cst_rules += 1, _ => {} } }
+        SHARED_RAW.with(|r| *r.borrow_mut() = Some(clone_events(&raw)));
+        let root_ok = catch(AssertUnwindSafe(|| parse_cst(&src).map(|c| c.root().text().to_string().as_bytes() == &src[..]).unwrap_or(false))).unwrap_or(false);
+        let (ast_rules, ast_errors) = catch(AssertUnwindSafe(|| { let a = parse_ast(&src); (a.rules().count(), a.errors().len()) })).unwrap_or((0, usize::MAX >> 8));
+        SHARED_RAW.with(|r| *r.borrow_mut() = None);
+        stats.add("big_source_bytes", src.len() as u64); stats.add("big_source_parse_ms", t0.elapsed().as_millis() as u64);
+        let case = format!("mkCase false {} None None {} {} None None [] true true (Some ({}, {}, {}, {}, {}))", src.len(), coq_bool(covered == src.len()), coq_bool(root_ok),
+            covered, nrules, cst_rules, ast_rules, ast_errors);
+        let replay = format!("{{\"stream\":\"big_source\",\"rules\":{},\"bytes\":{},\"covered\":{},\"cst_rules\":{},\"ast_rules\":{},\"ast_errors\":{},\"how\":\"{} lines `rule big_<i> {{ condition: true }}`, a comment line after every 1000\"}}",
+            nrules, src.len(), covered, cst_rules, ast_rules, ast_errors, nrules);
+        shards.push(case, replay);
+    }
     let mut attempts = 0usize;
     while shards.total < n && attempts < n * 20 {
         attempts += 1;
@@ -371,8 +392,8 @@ fn run(args: &[String]) -> i32 {
             None
         });
         let own_fail = match &toks { Ok(Some((os, _))) => os.iter().enumerate().filter(|(i, o)| o.at_off != Some(*i) || o.at.iter().any(|a| *a != Some(*i))).count(), _ => 0 };
-        let case = format!("mkCase {} {} {} {} {} {} {} {} {} {} {}", coq_bool(!very_deep), src.len(), coq_events(&raw), coq_events(&cst),
-            coq_bool(texts_ok), coq_bool(root_text_ok), toks_coq, ast_coq, anodes_coq, coq_bool(valid_utf8), coq_bool(cst_built));
+        let case = format!("mkCase {} {} {} {} {} {} {} {} {} {} {} {}", coq_bool(!very_deep), src.len(), coq_events(&raw), coq_events(&cst),
+            coq_bool(texts_ok), coq_bool(root_text_ok), toks_coq, ast_coq, anodes_coq, coq_bool(valid_utf8), coq_bool(cst_built), "None");
         let replay = format!("{{\"index\":{},\"stream\":{},\"source_hex\":\"{}\",\"source_lossy\":{},\"tokens\":{},\"parser_panicked\":{},\"cst_stream_panicked\":{},\"ast_panicked\":{},\"gap\":{},\"texts_ok\":{},\"root_text_ok\":{},\"own_lookup_failures\":{},\"valid_utf8\":{},\"cst_built\":{},\"ast_structure\":[{}]}}",
             shards.total, json_str(&stream), hex(&src), json_str(&String::from_utf8_lossy(&src)), ntok,
             raw.is_none(), cst.is_none(), ast.is_none(), match &gap { Some(g) => json_str(g), None => "null".into() }, texts_ok, root_text_ok, own_fail, valid_utf8, cst_built,
